@@ -479,7 +479,7 @@ package channel
 //@     ensures result == appDef(recv) && result != nil
 //@   method NewData
 //@     requires recv != nil
-//@     ensures result != nil
+//@     ensures result != nil && fresh(payload(result))
 //@ end
 //@ interface AppID
 //@   method Equal
@@ -620,7 +620,7 @@ package channel
 // channel backend being registered and behaving (environment assumption).
 //@ func NewAppID
 //@   trusted
-//@   ensures result0 != nil
+//@   ensures result0 != nil && fresh(payload(result0))
 
 //@ func Resolve
 //@   trusted
@@ -1055,7 +1055,7 @@ package channel
 //@ pred allocWF(x Allocation) = validAlloc(x) && nonNilAssets(x.Assets) && nonNilBalances(x.Balances) && nonNilLocked(x.Locked) && len(x.Backends) == len(x.Assets) &&
 //@   (forall i int :: 0 <= i && i < len(x.Assets) ==> has(backend, x.Backends[i]) && backend[x.Backends[i]] != nil && marshalLen(x.Assets[i]) <= 65535)
 //@ pred allocEq(y Allocation, x Allocation) = len(y.Assets) == len(x.Assets) && len(y.Backends) == len(x.Assets) && len(y.Locked) == len(x.Locked) &&
-//@   (forall i int :: 0 <= i && i < len(x.Assets) ==> y.Backends[i] == x.Backends[i] && y.Assets[i] != nil && unmarshalledFrom(y.Assets[i]) == marshalOf(x.Assets[i])) &&
+//@   (forall i int :: 0 <= i && i < len(x.Assets) ==> y.Backends[i] == x.Backends[i] && y.Assets[i] != nil && allocated(payload(y.Assets[i])) && unmarshalledFrom(y.Assets[i]) == marshalOf(x.Assets[i])) &&
 //@   balEq(y.Balances, x.Balances) && (forall l int :: 0 <= l && l < len(x.Locked) ==> subEq(y.Locked[l], x.Locked[l]))
 //@ pred allocHead(w io.Writer, p int, x Allocation) = wtokKind(w, p) == tokkind("uint16") && wtokVal(w, p) == len(x.Assets) &&
 //@   wtokKind(w, p + 1) == tokkind("uint16") && wtokVal(w, p + 1) == len(x.Balances[0]) && wtokKind(w, p + 2) == tokkind("uint16") && wtokVal(w, p + 2) == len(x.Locked)
@@ -1091,3 +1091,21 @@ package channel
 //@     invariant forall k int :: 0 <= k && k < len(x.Assets) ==> a.Backends[k] == x.Backends[k] && a.Assets[k] != nil && unmarshalledFrom(a.Assets[k]) == marshalOf(x.Assets[k])
 //@     invariant balEq(a.Balances, x.Balances)
 //@     invariant forall l int :: 0 <= l && l < $i ==> subEq(a.Locked[l], x.Locked[l])
+
+// States: ID, version, the allocation (summary token: lemma verifRoundTripAllocation), the final flag, then the optional app
+// (a flag and, unless it is the NoApp, the marshalled app identifier) and the marshalled data. The decoder resolves the app
+// from exactly the identifier bytes the encoder wrote (call-site obligation on Resolve) and lets the app create the data
+// value it unmarshals into. Whether the resolver knows the app is outside this lemma (no "fails only if" clause).
+//@ pred stateWFc(x State) = allocWF(x.Allocation) && x.App != nil && x.Data != nil && marshalLen(x.Data) <= 65535 &&
+//@   (!isNoApp(x.App) ==> marshalLen(appDef(x.App)) <= 65535)
+//@ pred stateEqc(y State, x State) = y.ID == x.ID && y.Version == x.Version && y.IsFinal == x.IsFinal && allocEq(y.Allocation, x.Allocation) &&
+//@   (isNoApp(x.App) ==> isNoApp(y.App)) && y.App != nil && y.Data != nil && unmarshalledFrom(y.Data) == marshalOf(x.Data)
+//@ codec State wf stateWFc eq stateEqc by verifRoundTripState
+//@ func verifRoundTripState
+//@   tokenmodel
+//@   requires w0 != nil && r0 != nil && stateWFc(x)
+//@   modifies *
+//@   inlines (State).Encode, (*State).Decode, (OptAppAndDataEnc).Encode, (OptAppAndDataDec).Decode, (OptAppEnc).Encode, (OptAppDec).Decode
+//@   callsite Resolve : unmarshalledFrom(def) == marshalOf(appDef(x.App))
+//@   ensures encErr == nil && decErr == nil ==> !desync(r0) && rcount(r0) - old(rcount(r0)) == wcount(w0) - old(wcount(w0))
+//@   ensures encErr == nil && decErr == nil ==> stateEqc(y, x)
